@@ -36,6 +36,7 @@ type HarnessInfo struct {
 	NoReplay bool
 	Timeout  int
 	Solver   string
+	Logic    string
 	Doc      string
 }
 
@@ -178,6 +179,8 @@ func Load(dirs []string) (*Loaded, error) {
 						h.Timeout, _ = strconv.Atoi(f[1])
 					case "solver":
 						h.Solver = f[1]
+					case "logic":
+						h.Logic = f[1]
 					}
 				}
 			}
@@ -214,7 +217,7 @@ type CheckOpts struct {
 
 func runOne(l *Loaded, h *HarnessInfo, opts CheckOpts, known []KnownFinding) *HarnessResult {
 	t0 := time.Now()
-	cfg := Config{Unwind: h.Unwind, UnwindFn: h.UnwindFn, MaxPaths: h.MaxPaths, Known: known, Verbose: opts.Verbose, SolverName: h.Solver, TimeoutMs: h.Timeout}
+	cfg := Config{Unwind: h.Unwind, UnwindFn: h.UnwindFn, MaxPaths: h.MaxPaths, Known: known, Verbose: opts.Verbose, SolverName: h.Solver, TimeoutMs: h.Timeout, Logic: h.Logic}
 	os.MkdirAll(filepath.Join(VerifDir, "out", "smt"), 0o755)
 	cfg.Transcript = filepath.Join(VerifDir, "out", "smt", h.Name+".smt2")
 	in := NewInterp(l.Prog, cfg)
@@ -544,6 +547,11 @@ func replayAll(l *Loaded, results []*HarnessResult, viols []*Violation, paths ma
 		}
 		for _, s := range r.Samples {
 			lab, _ := s["_cover"].(string)
+			if strings.HasPrefix(lab, "ideal:") {
+				// reachable only relative to a cryptographic idealisation (e.g. the
+				// adversary's bytes equal a ciphertext the solver cannot predict)
+				continue
+			}
 			byDir[r.Info.PkgDir] = append(byDir[r.Info.PkgDir], item{c: replayCase{r.Info.Name, cleanInputs(s)}, cover: lab, h: r.Info})
 		}
 	}
